@@ -17,6 +17,13 @@ def lock_names(ctx):
   return out
 
 
+def _lock_call(st, locks, attr):
+  if isinstance(st, ast.Expr) and isinstance(st.value, ast.Call) and isinstance(st.value.func, ast.Attribute) and st.value.func.attr == attr \
+      and isinstance(st.value.func.value, ast.Name) and st.value.func.value.id in locks:
+    return st.value.func.value.id
+  return None
+
+
 def held_locks(node, locks):
   held = []
   for w in enclosing_withs(node):
@@ -24,7 +31,79 @@ def held_locks(node, locks):
       for it in w.items:
         if isinstance(it.context_expr, ast.Name) and it.context_expr.id in locks:
           held.append((it.context_expr.id, w))
+  # explicit L.acquire() ... L.release() in a statement list around the node (whether the release is reached on every path
+  # is the business of the `acquire-released` obligation)
+  cur = node
+  while cur is not None and not isinstance(cur, FuncNode):
+    par = getattr(cur, 'parent', None)
+    if isinstance(cur, ast.stmt) and par is not None:
+      for fld in ('body', 'orelse', 'finalbody'):
+        lst = getattr(par, fld, None)
+        if isinstance(lst, list) and any(x is cur for x in lst):
+          idx = [i for i, x in enumerate(lst) if x is cur][0]
+          for prev in reversed(lst[:idx]):
+            if _lock_call(prev, locks, 'release'):
+              break
+            nm = _lock_call(prev, locks, 'acquire')
+            if nm:
+              held.append((nm, prev))
+              break
+    cur = par
   return held
+
+
+def in_section(n, w):
+  """n lies in the critical section opened by w: the body of a `with`, or the statements between an explicit acquire() and the release()."""
+  if not isinstance(w, ast.Expr):
+    return in_subtree(n, w)
+  par = getattr(w, 'parent', None)
+  for fld in ('body', 'orelse', 'finalbody'):
+    lst = getattr(par, fld, None)
+    if isinstance(lst, list) and any(x is w for x in lst):
+      idx = [i for i, x in enumerate(lst) if x is w][0]
+      for st in lst[idx + 1:]:
+        if isinstance(st, ast.Expr) and isinstance(st.value, ast.Call) and isinstance(st.value.func, ast.Attribute) and st.value.func.attr == 'release' \
+            and u(st.value.func.value) == u(w.value.func.value):
+          return False
+        if in_subtree(n, st):
+          return True
+  return False
+
+
+def explicit_acquires(ctx, locks, rule):
+  """A lock taken with L.acquire() is released on every path out of the function, exceptions included."""
+  from ..cfg import witness, describe_path
+  prog = ctx.prog
+  n_acq = 0
+  for f in ctx.ix.all_funcs(['config']):
+    if not hasattr(f, 'node') or isinstance(f.node, ast.ClassDef):
+      continue
+    acqs = [c for c in walk_local(f.node) if isinstance(c, ast.Call) and isinstance(c.func, ast.Attribute) and c.func.attr == 'acquire'
+            and isinstance(c.func.value, ast.Name) and c.func.value.id in locks]
+    if not acqs:
+      continue
+    g = prog.cfg(f, may_raise=lambda n_: any(isinstance(x_, ast.Call) for x_ in ast.walk(n_)), cache_key='any-call-raises')
+    from ..lib import calls_of_node
+    for c in acqs:
+      n_acq += 1
+      L = c.func.value.id
+      an = [n for n in g.live_nodes() if any(x is c for x in calls_of_node(n))]
+      rel = [n.id for n in g.live_nodes() if any(isinstance(x.func, ast.Attribute) and x.func.attr == 'release' and u(x.func.value) == L for x in calls_of_node(n))]
+      leak = None
+      for a in an:
+        for b, k in g.succ[a.id]:
+          if k == 'exc':
+            continue          # acquire() itself failing leaves nothing held
+          for goal, name in ((g.exit.id, 'a normal exit'), (g.raise_exit.id, 'an exception')):
+            w = witness(g, b, [goal], avoid=rel) if b not in rel else None
+            if w and leak is None:
+              leak = (name, w)
+      is_gen = any(isinstance(x, (ast.Yield, ast.YieldFrom)) for x in walk_local(f.node))
+      ctx.check(leak is None, rule, construct(f), '%s.acquire() is followed by a release on every path, exceptions included' % L,
+                '%s is taken with acquire() and not released when the function is left by %s%s: every later configurable call or '
+                'read of the record, in any thread, then blocks for ever' % (L, leak[0] if leak else '', ' (the body of the `with` block run at `yield` raising)' if is_gen else ''),
+                f.loc(c), instance='acquire-released:' + f.name, path=describe_path(g, leak[1]) if leak else None)
+  return n_acq
 
 
 def run(ctx):
@@ -35,6 +114,7 @@ def run(ctx):
 
   from .common import factory_state_rule
   factory_state_rule(ctx, 'C18.lockset')
+  explicit_acquires(ctx, locks, 'C18.lockset')
   # ---- C18.lockset
   op = [a for a in acc if a.store == '_OPERATIVE_CONFIG' and a.kind != 'init']
   ctx.expect_at_least('access sites of the operative record', len(op), 2)
@@ -63,7 +143,7 @@ def run(ctx):
         (isinstance(st, ast.Assign) and isinstance(st.targets[0], ast.Name) and a.method in ('setdefault', '__getitem__', 'get')):
       alias = st.targets[0].id
       for n in walk_local(f.node):
-        if isinstance(n, ast.Name) and n.id == alias and n is not st.targets[0] and not in_subtree(n, w):
+        if isinstance(n, ast.Name) and n.id == alias and n is not st.targets[0] and not in_section(n, w):
           leaks.append(n)
     # passed to a callee: the result must be a fresh str, the callee must not store the argument
     if a.kind == 'escape' and a.method and a.method.startswith('arg:'):
